@@ -1945,6 +1945,26 @@ def materialize_default_methods(doc):
                     if tk not in pinned and inline_call(nb, bi, by_key[tk], doc):
                         again = True
                         break
+                if again:
+                    continue
+                # small inherent accessors of the impl's own type called on self (`self.get_pk_sender_id().is_some()`): inlined
+                # into this synthetic body only, so that it is a function of the variant like the body it replaces
+                for bi, blk in enumerate(nb['blocks']):
+                    t = blk['term']
+                    if t.get('k') != 'call' or blk.get('cleanup'):
+                        continue
+                    k2, fn2 = _callee_key(t)
+                    cal = by_key.get(k2) if k2 else None
+                    if cal is None or cal is nb or fn2.get('trait') or len(cal['blocks']) > 16 or cal.get('default_of'):
+                        continue
+                    if (cal.get('impl_of') or {}).get('self_ty') != im['self_ty'] or (cal.get('impl_of') or {}).get('trait'):
+                        continue
+                    if any((bb['term'].get('k') == 'call' and _callee_key(bb['term'])[0]) for bb in cal['blocks']):
+                        continue          # leaf accessors only
+                    fn2['subst_map'] = {'Self': im['self_ty']}
+                    if inline_call(nb, bi, cal, doc):
+                        again = True
+                        break
             info.append(K)
     doc.setdefault('meta', {})['materialized_defaults'] = info
     return doc
@@ -2135,4 +2155,52 @@ def expand_value_combinators(doc):
                 blk['term'] = {'k': 'goto', 'target': t['target'], 'line': line, 'syn': 'is_some'}
                 n += 1
     doc.setdefault('meta', {})['expanded_value_combinators'] = n
+    return doc
+
+
+
+# N3l `cond.then(f)` is `if cond { Some(f()) } else { None }`
+def expand_bool_then(doc):
+    n = 0
+    for b in doc['bodies']:
+        blocks = b['blocks']
+        L = b['locals']
+        for blk in list(blocks):
+            t = blk['term']
+            if t.get('k') != 'call' or blk.get('cleanup') or t.get('target') is None or len(t.get('args', [])) != 2 or t['dest']['p']:
+                continue
+            fn = (t.get('func') or {}).get('fn') or {}
+            if fn.get('path') != 'core::bool::<impl bool>::then' or 'closure@' not in str(t['arg_tys'][1]):
+                continue
+            c, f = t['args']
+            if f.get('k') != 'move' or f['place']['p']:
+                continue
+            da = _ty_args(t['dest_ty'])
+            if len(da) != 1:
+                continue
+            line = t.get('line')
+            cty = t['arg_tys'][1]
+
+            def new_local(ty):
+                L.append({'ty': ty, 'ty_raw': ty, 'name': None, 'mut': True, 'synthetic': True})
+                return len(L) - 1
+            r_l, u_l = new_local(da[0]), new_local('()')
+            base = len(blocks)
+            cfn = {'path': 'core::ops::FnOnce::call_once', 'path_args': '<%s as core::ops::FnOnce<()>>::call_once' % cty, 'key': 'core::ops::FnOnce::call_once',
+                   'crate': 'core', 'local': False, 'name': 'call_once', 'trait': 'core::ops::FnOnce', 'self_ty': cty, 'generic_args': [cty, '()'], 'def_kind': 'AssocFn',
+                   'resolved': None}
+            blk['term'] = {'k': 'switch', 'discr': c, 'discr_ty': 'bool', 'targets': [[0, base + 2]], 'otherwise': base, 'line': line, 'exp': False, 'syn': 'then'}
+            blocks.append({'cleanup': False, 'syn': 'then', 'stmts': [
+                {'k': 'assign', 'place': {'l': u_l, 'p': []}, 'rv': {'k': 'aggregate', 'agg': 'tuple', 'fields': []}, 'line': line, 'exp': False, 'syn': 'then'}],
+                'term': {'k': 'call', 'func': {'k': 'const', 'ty': 'fn', 'text': cfn['path_args'], 'fn': cfn}, 'args': [f, {'k': 'move', 'place': {'l': u_l, 'p': []}}],
+                         'arg_tys': [cty, '()'], 'dest': {'l': r_l, 'p': []}, 'dest_ty': da[0], 'target': base + 1, 'unwind': t.get('unwind', 'continue'),
+                         'source': 'Normal', 'line': line, 'fn_line': line, 'exp': False, 'syn': 'then'}})
+            blocks.append({'cleanup': False, 'syn': 'then', 'stmts': [
+                {'k': 'assign', 'place': t['dest'], 'rv': _agg('core::option::Option', 'Some', 1, ['0'], [{'k': 'move', 'place': {'l': r_l, 'p': []}}], da), 'line': line, 'exp': False, 'syn': 'then'}],
+                'term': {'k': 'goto', 'target': t['target'], 'line': line}})
+            blocks.append({'cleanup': False, 'syn': 'then', 'stmts': [
+                {'k': 'assign', 'place': t['dest'], 'rv': _agg('core::option::Option', 'None', 0, [], [], da), 'line': line, 'exp': False, 'syn': 'then'}],
+                'term': {'k': 'goto', 'target': t['target'], 'line': line}})
+            n += 1
+    doc.setdefault('meta', {})['expanded_bool_then'] = n
     return doc
